@@ -246,6 +246,31 @@ impl<'a> TyVisitor for V<'a> {
             Verdict::Pass { .. } => true,
             _ => return v,
         };
+        // integer powers: the SIGN of the value and of every first-order part is exact in any correct
+        // evaluation (products of non-zero factors), whatever the accumulated rounding of |x|^n is -
+        // for |n| u > 1 (f32, |n| > 2^24) it is the only thing left to decide
+        if case.kind == Kind::Powi {
+            let n = int_exponent(case.es, case.en, case.eu) as i64;
+            let xs: Vec<T> = inputs.iter().map(|f| T::from_flat(dims, f)).collect();
+            let out = eval_lib::<T, T::F>(&prog, &xs)[prog.outs[0]].to_flat(dims);
+            let sx = if x0 < 0.0 { -1.0 } else { 1.0 };
+            let s0: f64 = if n % 2 == 0 { 1.0 } else { sx };
+            // d/dx x^n = n x^(n-1)
+            let s1: f64 = (if n < 0 { -1.0 } else { 1.0 }) * if (n - 1) % 2 == 0 { 1.0 } else { sx };
+            let bad = |v: f64, want: f64| v.is_finite() && v != 0.0 && v.signum() != want;
+            if n != 0 && bad(out.vals[0], s0) {
+                return Verdict::Fail { sig: "C09/powi/sign".into(), why: format!("{}: powi({n}) of a base with real part {:e} has real part {:e}: wrong sign; input {}", T::tname(dims), x0, out.vals[0], flat_json(&lay, &inputs[0])) };
+            }
+            if n != 0 {
+                for (i, s) in lay.slots.iter().enumerate() {
+                    let vin = inputs[0].vals[i];
+                    if s.order == 1 && lay.slot_present(i, &inputs[0].pres) && vin != 0.0 && bad(out.vals[i], s1 * vin.signum()) {
+                        return Verdict::Fail { sig: "C09/powi/sign".into(), why: format!("{}: powi({n}) of a base with real part {:e}: first-order part {} = {:e} has the wrong sign; input {}", T::tname(dims), x0, s.name, out.vals[i], flat_json(&lay, &inputs[0])) };
+                    }
+                }
+                st.count("powi_sign_checks", 1);
+            }
+        }
         // explicit cross agreement of the library results (each side within 32 u e of the truth)
         if !cross.is_empty() {
             let alg = lay.alg();
@@ -354,7 +379,7 @@ impl Property for C09 {
         }
     }
     fn rule() -> String {
-        "generated: (type, kind in {powi, powf, powd, 4 relation templates}, exponent from strata: powi -10..10, the special cases 0,1,2,3, the i32-overflow thresholds of n(n-1) (46341+-2) and n(n-1)(n-2) (1291+-2), +-2^k up to 2^30, random up to 2^30; powf 0 and tiny non-zero exponents (+-eps, 0.9 eps, 1e-8, 1e-12, 1e-17, 3e-20, 1e-100, 1e-300, denormal), 1, 2 each +-{1,2,4} ulp, 2 +- fractions of epsilon, +-eps, denormal, negative, non-integer, integer-valued, 3 +- 1e-9, large up to +-300, half-integers, huge +-10^3..10^300 (f32: 10^37) both at a base ~ 1 and at a fixed base 0.5/0.9/1e-3/0.999 (or its reciprocal) where the power and all its derivatives underflow to 0; base x = +-exp(t/n) with t in [-30,30] so that x^n stays representable; negative bases with integer exponents; powd with an arbitrary dual exponent). Oracle: generalized binomial Taylor data t_k = C(n,k) x^(n-k) in the reference algebra (powd: exp(y ln x)) with the rounding bound of the library's x^(n-3) x x x scheme and |n| units for repeated squaring; relation templates additionally compare the library results with each other (tolerance 32 u (e_a+e_b)). Non-trivial: |n| > 3 or non-integer exponent, and a part of order >= 2 is non-zero.".into()
+        "generated: (type, kind in {powi, powf, powd, 4 relation templates}, exponent from strata: powi -10..10, the special cases 0,1,2,3, the i32-overflow thresholds of n(n-1) (46341+-2) and n(n-1)(n-2) (1291+-2), +-2^k up to 2^30, random up to 2^30; powf 0 and tiny non-zero exponents (+-eps, 0.9 eps, 1e-8, 1e-12, 1e-17, 3e-20, 1e-100, 1e-300, denormal), 1, 2 each +-{1,2,4} ulp, 2 +- fractions of epsilon, +-eps, denormal, negative, non-integer, integer-valued, 3 +- 1e-9, large up to +-300, half-integers, huge +-10^3..10^300 (f32: 10^37) both at a base ~ 1 and at a fixed base 0.5/0.9/1e-3/0.999 (or its reciprocal) where the power and all its derivatives underflow to 0; base x = +-exp(t/n) with t in [-30,30] so that x^n stays representable; negative bases with integer exponents; powd with an arbitrary dual exponent). Oracle: generalized binomial Taylor data t_k = C(n,k) x^(n-k) in the reference algebra (powd: exp(y ln x)) with the rounding bound of the library's x^(n-3) x x x scheme and |n| units for repeated squaring; for powi the signs of the value and of every first-order part are checked exactly (for f32 and |n| > 2^24 the rounding bound |n| u exceeds 1 and the sign is all that can be decided); relation templates additionally compare the library results with each other (tolerance 32 u (e_a+e_b)). Non-trivial: |n| > 3 or non-integer exponent, and a part of order >= 2 is non-zero.".into()
     }
     fn assumptions() -> Vec<String> {
         vec![
